@@ -61,7 +61,10 @@ KIND_TARGETS = [
     (kinds.Meth.cmake, {'Meth.cmake'}), (kinds.MethSub.cmake, {'Meth.cmake'}),
 ] + [(f, {f.__name__}) for f in sigs.WIDE] + [
     # function objects of one nested def / one lambda (one code object), different defaults
-    (f, {'variant'}) for f in kinds.DEFAULT_VARIANTS] + [(f, {'lambda_variant'}) for f in kinds.LAMBDA_VARIANTS]
+    (f, {'variant'}) for f in kinds.DEFAULT_VARIANTS] + [
+    # callables that see the RAW call (unset parameters must not be passed at all)
+    (kinds.raw_po, {'raw_po'}), (kinds.raw_mixed, {'raw_mixed'}), (kinds.raw_va, {'raw_va'}),
+    (kinds.raw_po, {'raw_po'}), (kinds.raw_mixed, {'raw_mixed'})] + [(f, {'lambda_variant'}) for f in kinds.LAMBDA_VARIANTS]
 
 
 def plan(tier):
@@ -114,6 +117,7 @@ class Values:
             lambda n: gen.Seq('tuple', [n]),
             lambda n: gen.Map('dict', [('k', n)]),
             lambda n: gen.Seq('point', [n, gen.Leaf(1)]),
+            lambda n: gen.Seq('pointsub', [gen.Leaf(2), n]),
         ])(node)
       self.shared.append(node)
     elif r > 0.9:
@@ -448,11 +452,12 @@ def run_transient(spec, acc):
 def run_dag(spec, acc):
   for i, rng in acc.cases(spec):
     opts = gen.Opts(max_nodes=rng.choice([4, 8, 14]), lattice=0.3,
-                    leaves=gen.LEAF_POOL + gen.TWIN_LEAVES * (3 if i % 3 == 0 else 1))
+                    leaves=gen.LEAF_POOL + gen.TWIN_LEAVES * (3 if i % 3 == 0 else 1),
+                    containers=['list', 'tuple', 'dict', 'point', 'defaultdict', 'pointsub'])
     g = gen.DagGen(rng, opts)
     root = g.dag()
     if rng.random() < 0.3:
-      root = gen.Seq(rng.choice(['list', 'tuple', 'point']), [root, g.child(1)]) \
+      root = gen.Seq(rng.choice(['list', 'tuple', 'point', 'pointsub']), [root, g.child(1)]) \
           if rng.random() < 0.7 else gen.Map('dict', [('r', root), (3, g.child(1))])
     cfg = gen.to_fiddle(root)
     with rec.Trace():
